@@ -27,6 +27,11 @@ type Config struct {
 	Daemons  []string      // creation-site substrings of goroutines that never end by design
 	KeepLog  bool
 	TraceCap int // keep at most that many trace entries (for replay files / samples)
+	// ClockJumps: up to that many times per run the scheduler lets simulated time pass (up to JumpMax)
+	// although goroutines are runnable: a stalled process / a clock jump. Positions and sizes come from the tape.
+	ClockJumps int
+	JumpMax    time.Duration
+	JumpWithin int // the jumps are placed within the first JumpWithin steps
 }
 
 // G is one simulated goroutine.
@@ -86,7 +91,7 @@ type Sim struct {
 	logs       []string
 	endFns     []func()
 	injections []*injection
-	stallLeft  int
+	jumps      map[int64]time.Duration
 	Stalls     int64
 	unsorted   int64
 }
@@ -193,6 +198,18 @@ func Run(cfg Config, tape *Tape, root func(s *Sim)) *Sim {
 	}
 	defer current.Store(nil)
 
+	if cfg.ClockJumps > 0 && cfg.JumpMax > 0 {
+		within := cfg.JumpWithin
+		if within <= 0 {
+			within = 400
+		}
+		n := tape.Int(cfg.ClockJumps + 1)
+		s.jumps = map[int64]time.Duration{}
+		for i := 0; i < n; i++ {
+			at := int64(1 + tape.Int(within))
+			s.jumps[at] = time.Duration(1+tape.Int(1000)) * cfg.JumpMax / 1000
+		}
+	}
 	s.spawn("root", true, func() { root(s) })
 	s.loop()
 	s.Steps = s.step.Load()
@@ -385,10 +402,14 @@ func (s *Sim) loop() {
 			return
 		}
 		// only daemons runnable and a quiescence waiter present, horizon passed => quiescent
-		s.mu.Lock()
-		if s.stallLeft > 0 {
-			s.stallLeft--
+		if d, ok := s.jumps[s.step.Load()+1]; ok {
+			// the whole process stalls: simulated time passes although goroutines are runnable
+			delete(s.jumps, s.step.Load()+1)
+			s.Stalls++
+			time.Sleep(d)
+			continue
 		}
+		s.mu.Lock()
 		g := s.pick(r)
 		s.release(g)
 		s.mu.Unlock()
